@@ -281,6 +281,16 @@ class Summ:
                     _collect_locals(t, m)
                 conds = [_rename_locals(c, m) for c in conds]
                 effs = [_rename_locals(e, m) for e in effs]
+            # a local whose initialiser was a selection `c ? a : b` is, on this path, the arm that the path selected
+            sub = {}
+            for s in p.stmts:
+                if s.get('k') == 'DeclStmt':
+                    for d in s.get('c') or ():
+                        if d.get('k') == 'VarDecl' and d.get('_split_from') is not None and isinstance(d.get('init'), dict):
+                            sub[self.term(d['_split_from'])] = self.term(d['init'])
+            if sub:
+                conds = [_subst_terms(c, sub) for c in conds]
+                effs = [_subst_terms(e, sub) for e in effs]
             if not effs and (p.end == 'fall' or (loop and p.end == 'continue')):
                 conds = []          # doing nothing needs no reason: the no-op paths are the complement of the others, however the tests that lead to them are nested
             # the decisions of a path are tests without effects: which of them is made first does not change what the path is
@@ -289,6 +299,15 @@ class Summ:
 
     def summary(self):
         return self.paths(self.f.body)
+
+
+def _subst_terms(t, sub):
+    if isinstance(t, tuple):
+        if t in sub:
+            return sub[t]
+        r = tuple(_subst_terms(x, sub) for x in t)
+        return PathSet(r) if isinstance(t, PathSet) else r
+    return sub.get(t, t) if isinstance(t, str) else t
 
 
 class PathSet(tuple):
